@@ -89,6 +89,8 @@ package leader
 //@ field natsWatcherAdapter.watcher immutable
 //@ field natsWatcherAdapter.once    sync
 //@ field natsWatcherAdapter.entryChan plain
+//@ field natsWatcherAdapter.stopped   immutable
+//@ field natsWatcherAdapter.stopOnce  sync
 //@ field MockWatcherAdapter.watcher   immutable
 //@ field MockWatcherAdapter.initChan  immutable
 //@ field MockWatcherAdapter.once      sync
@@ -146,6 +148,12 @@ package leader
 //@   on call uuid.String as u set $lastDrawn = u.result
 //@   on call KeyValue.Create as c assert C05+C01.token_drawn_for_this_attempt: $tokenDrawn && TokenOf(c.value) == $lastDrawn
 //@   on ret KeyValue.Create set $tokenDrawn = false
+//@   on call KeyValue.Create assert C03+C06+C09+C11+C13.store_calls_outside_the_mutex: nheld(kvElection.mu) == 0
+//@   on call KeyValue.Update assert C03+C06+C09+C11+C13.store_calls_outside_the_mutex: nheld(kvElection.mu) == 0
+//@   on call KeyValue.Get assert C03+C06+C09+C11+C13.store_calls_outside_the_mutex: nheld(kvElection.mu) == 0
+//@   on call KeyValue.Delete assert C03+C06+C09+C11+C13.store_calls_outside_the_mutex: nheld(kvElection.mu) == 0
+//@   on call KeyValue.Watch assert C03+C06+C09+C11+C13.store_calls_outside_the_mutex: nheld(kvElection.mu) == 0
+//@   on call RevisionDeleter.DeleteRevision assert C03+C06+C09+C11+C13.store_calls_outside_the_mutex: nheld(kvElection.mu) == 0
 //@   on call wg.Add assert C20+C09.wait_group_grows_under_the_mutex_or_on_a_tracked_goroutine: (nheld(kvElection.mu) >= 1 && e.stopsWaiting == 0) || caller.onTrackedGoroutine
 //@   on call kvElection.onDemote assert C08+C09+C11+C13+C03+C06+C04+C12.callbacks_run_outside_the_mutex: nheld(kvElection.mu) == 0
 //@   on call kvElection.onPromote assert C08+C09+C13+C03+C06.callbacks_run_outside_the_mutex: nheld(kvElection.mu) == 0
@@ -596,10 +604,10 @@ package leader
 //@   ghost wrArmed Bool = false
 //@   on store kvElection.watcherRunning as s when !inspawn() set wrArmed = s.value
 //@   on call watchLoop assert C13+C06.one_watch_loop_at_a_time: inspawn() && !watcherSeen && wrArmed
-//@   on unlock kvElection.mu assert C03+C02.claim_cleared_at_unlock: !unlessLeader ==> !e.isLeader
+//@   on unlock kvElection.mu assert C03+C02+C04.claim_cleared_at_unlock: !unlessLeader ==> !e.isLeader
 //@   on store kvElection.isLeader assert C07+C08+C03+C18+C19.settling_never_clears_a_claim: unlessLeader ==> !cleared
 //@   ensures C07.settling_reports_nothing_cleared: unlessLeader ==> !result
-//@   ensures C08+C03+C19.reports_cleared: !unlessLeader ==> result == cleared
+//@   ensures C08+C03+C19+C04.reports_cleared: !unlessLeader ==> result == cleared
 //@   ensures C19.cancelled_on_demotion: cleared && !unlessLeader ==> termCancelled
 //@   ghost stateL Int = 0
 //@   on lock kvElection.mu set stateL = e.state
@@ -792,8 +800,9 @@ package leader
 //@   on load kvElection.isLeader as l set stillLeader = l.value
 //@   on load kvElection.isLeader as l when !l.value set sawNotLeader = true
 //@   on call handleValidationFailure set validation_failed = !(v0 && v1 == nil)
+//@   on call handleValidationFailure assert C07+C04.only_a_standing_term_is_ended_for_a_failed_validation: stillLeader
 //@   ensures C04.same_verdict: result == (v0 && v1 == nil) && calls(ValidateToken) == 1
-//@   ensures C04+C13.demote_on_false: !result ==> calls(handleValidationFailure) == 1 || sawNotLeader
+//@   ensures C04+C13+C03+C08.demote_on_false: !result ==> calls(handleValidationFailure) == 1 || sawNotLeader
 //@   ensures C04+C07.no_demote_on_true: result ==> calls(handleValidationFailure) == 0
 
 // ===========================================================================
@@ -1003,7 +1012,12 @@ package leader
 //@   on backedge 0 assert C06.periodic_check_when_follower: tick ==> (leaderSeen || checked)
 //@   on backedge 0 set tick = false
 //@   loop 0 invariant C06.periodic_check_armed: tickerArmed && !tick && onTrackedGoroutine
-//@   on return assert C06.loop_ends_only_on_cancel: sawDone
+//@   on return assert C06+C09.loop_ends_only_on_cancel: sawDone
+//@   ghost watchObtained Bool = false
+//@   on ret KeyValue.Watch as w set watchObtained = w.result1 == nil
+//@   ghost watchReleased Bool = false
+//@   on call Watcher.Stop set watchReleased = true
+//@   ensures C09+C14.an_obtained_watch_is_released: watchObtained ==> watchReleased
 
 // The periodic check decodes the record into a generic map: the id it finds there.
 //@ spec RecID(v) = pay(mapget(ParseMap(v), "id"))
@@ -1299,6 +1313,7 @@ package leader
 //@   on recv chan as r set got = r.value
 //@   on recv chan as r set pending = r.ok
 //@   on send as s assert C14.forward_blocks: s.blocking
+//@   on send as s assert C14+C09.a_pending_forward_ends_with_the_watch: s.guard == "natsWatcherAdapter.stopped"
 //@   on send as s assert C14.forward_faithful: pending && ((got == nil) == (s.value == nil)) && (got != nil ==> istype(s.value, *natsEntryAdapter) && s.value.(*natsEntryAdapter).entry == got)
 //@   on send as s assert C14.each_change_gets_its_own_entry: s.value == nil || newInThisIteration(s.value)
 //@   on send set pending = false
